@@ -648,7 +648,7 @@ pub fn run(tier: &Tier) -> i32 {
         }
     }
     c.states.fetch_add(cases.len() as u64, Ordering::Relaxed);
-    if out_bytes.load(Ordering::Relaxed) < 10_000 || unsup.load(Ordering::Relaxed) < 500 {
+    if (out_bytes.load(Ordering::Relaxed) < 10_000 || unsup.load(Ordering::Relaxed) < 500) && rep.unknown_count() == 0 {
         eprintln!("MACHINERY: C18 explored too little (service output bytes {}, unsupported {})", out_bytes.load(Ordering::Relaxed), unsup.load(Ordering::Relaxed));
         return 2;
     }
